@@ -628,6 +628,61 @@ func readClearsOnFailure(c *core.Ctx, p *load.Prog) bool {
 		return false
 	}
 	cleared := false
+	// a failure return taken before the underlying read (e.g. a shortcut on an
+	// already latched error) leaves the destination untouched as well
+	isClear := func(s ast.Stmt) bool {
+		if es, ok := s.(*ast.ExprStmt); ok {
+			if call, ok := es.X.(*ast.CallExpr); ok && wire.Canon(call.Fun) == "clear" && len(call.Args) == 1 && wire.Canon(call.Args[0]) == "b" {
+				return true
+			}
+		}
+		return false
+	}
+	earlyBad := false
+	var scanBlock func(list []ast.Stmt, clearedAbove bool)
+	scanBlock = func(list []ast.Stmt, clearedAbove bool) {
+		cl := clearedAbove
+		for _, s := range list {
+			if isClear(s) {
+				cl = true
+			}
+			switch x := s.(type) {
+			case *ast.ReturnStmt:
+				if n := len(x.Results); n == 2 && wire.Canon(x.Results[n-1]) != "nil" && !cl {
+					earlyBad = true
+				}
+			case *ast.IfStmt:
+				scanBlock(x.Body.List, cl)
+				if eb, ok := x.Else.(*ast.BlockStmt); ok {
+					scanBlock(eb.List, cl)
+				} else if x.Else != nil {
+					scanBlock([]ast.Stmt{x.Else}, cl)
+				}
+			case *ast.BlockStmt:
+				scanBlock(x.List, cl)
+			case *ast.SwitchStmt:
+				for _, cc := range x.Body.List {
+					scanBlock(cc.(*ast.CaseClause).Body, cl)
+				}
+			}
+		}
+	}
+	for i, s := range f.fd.Body.List {
+		touches := false
+		ast.Inspect(s, func(n ast.Node) bool {
+			if sel, ok := n.(*ast.SelectorExpr); ok && wire.Canon(sel) == "er.Reader" {
+				touches = true
+			}
+			return true
+		})
+		if touches {
+			scanBlock(f.fd.Body.List[:i], false)
+			break
+		}
+	}
+	if earlyBad {
+		return false
+	}
 	ast.Inspect(f.fd.Body, func(n ast.Node) bool {
 		ifs, ok := n.(*ast.IfStmt)
 		if !ok {
@@ -728,7 +783,9 @@ func iohelpStaleReads(c *core.Ctx, p *load.Prog, rule string) {
 }
 
 // iohelpDrain (C06/R5, C08/R5)
-func iohelpDrain(c *core.Ctx, p *load.Prog, rule string) {
+// latch: also the clauses about reporting (a failing read of the tail, a
+// region that ends early); without it only termination of a hand-written loop.
+func iohelpDrain(c *core.Ctx, p *load.Prog, rule string, latch bool) {
 	f := ioFunc(c, p, "ErrorReader.Drain")
 	if f == nil {
 		return
@@ -760,8 +817,10 @@ func iohelpDrain(c *core.Ctx, p *load.Prog, rule string) {
 		}
 		return true
 	})
-	c.Check(rule, "Drain latches the error of reading the tail", f.pos(), !discards && storesErr,
-		fmt.Sprintf("Drain discards the error of its read (discarded=%v, stores er.Err=%v): a reader that fails inside the skipped tail goes unreported", discards, storesErr))
+	if latch {
+		c.Check(rule, "Drain latches the error of reading the tail", f.pos(), !discards && storesErr,
+			fmt.Sprintf("Drain discards the error of its read (discarded=%v, stores er.Err=%v): a reader that fails inside the skipped tail goes unreported", discards, storesErr))
+	}
 	// a hand-written drain loop must end on any error and on nothing else
 	loopOK := true
 	ast.Inspect(f.fd.Body, func(n ast.Node) bool {
@@ -802,8 +861,70 @@ func iohelpDrain(c *core.Ctx, p *load.Prog, rule string) {
 	})
 	c.Check(rule, "a loop in Drain ends exactly when a read fails", f.pos(), loopOK,
 		"Drain loops by hand and leaves the loop on something other than `err != nil` (a short read is not the end of the data; a non-EOF error that never turns into EOF must still end the loop)")
-	c.Check(rule, "Drain latches a premature end of the bounded region", f.pos(), shortRegion && storesErr,
-		"Drain does not look at the limiter's remaining count: a stream that ends inside the declared body length is reported as success")
+	if !latch {
+		return
+	}
+	// the store that reports a short region is guarded by the limiter's remaining
+	// count (or by the number of bytes the copy delivered)
+	copied := map[types.Object]bool{}
+	ast.Inspect(f.fd.Body, func(n ast.Node) bool {
+		if as, ok := n.(*ast.AssignStmt); ok && len(as.Rhs) == 1 && len(as.Lhs) == 2 {
+			if call, ok := as.Rhs[0].(*ast.CallExpr); ok && strings.HasPrefix(wire.Canon(call.Fun), "io.Copy") {
+				if id, ok := as.Lhs[0].(*ast.Ident); ok && id.Name != "_" {
+					copied[f.info.ObjectOf(id)] = true
+				}
+			}
+		}
+		return true
+	})
+	guarded, filtersEOF := false, false
+	ast.Inspect(f.fd.Body, func(n ast.Node) bool {
+		ifs, ok := n.(*ast.IfStmt)
+		if !ok {
+			return true
+		}
+		stores := false
+		for _, st := range ifs.Body.List {
+			if as, ok := st.(*ast.AssignStmt); ok {
+				for _, l := range as.Lhs {
+					if wire.Canon(l) == "er.Err" {
+						stores = true
+					}
+				}
+			}
+		}
+		if !stores {
+			return true
+		}
+		ast.Inspect(ifs.Cond, func(k ast.Node) bool {
+			switch x := k.(type) {
+			case *ast.SelectorExpr:
+				if x.Sel.Name == "N" {
+					if t := f.info.TypeOf(x.X); t != nil && strings.Contains(t.String(), "io.LimitedReader") {
+						guarded = true
+					}
+				}
+			case *ast.Ident:
+				if copied[f.info.ObjectOf(x)] {
+					guarded = true
+				}
+			case *ast.BinaryExpr:
+				if x.Op == token.NEQ && (wire.Canon(x.X) == "io.EOF" || wire.Canon(x.Y) == "io.EOF") {
+					filtersEOF = true
+				}
+			case *ast.UnaryExpr:
+				if call, ok := ast.Unparen(x.X).(*ast.CallExpr); ok && x.Op == token.NOT && wire.Canon(call.Fun) == "errors.Is" && len(call.Args) == 2 && wire.Canon(call.Args[1]) == "io.EOF" {
+					filtersEOF = true
+				}
+			}
+			return true
+		})
+		return true
+	})
+	c.Check(rule, "Drain latches a premature end of the bounded region", f.pos(), shortRegion && storesErr && guarded,
+		"no store into er.Err is conditioned on the limiter's remaining count (or on the number of bytes skipped): a stream that ends inside the declared body length is reported as success")
+	c.Check(rule, "Drain does not exempt io.EOF from the error it latches", f.pos(), !filtersEOF,
+		"the store into er.Err is skipped when the error is io.EOF: inside a length-limited region an EOF from the source means the record is truncated")
 }
 
 func isErrorType(t types.Type) bool {
@@ -1006,6 +1127,58 @@ func iohelpLatchRules(c *core.Ctx, p *load.Prog, r1, r2, r5, r6 string) {
 			}
 		}
 		c.Check(r6, ctor.fn+" returns an existing wrapper unchanged", f.pos(), ok, "nested records must latch into the caller's wrapper: the constructor has to return its argument when it already is a *"+ctor.typ)
+	}
+}
+
+// iohelpCtorDirect: the constructors hand the caller's own stream to the
+// wrapper. Anything placed in between (a bufio.Reader reads ahead of the record
+// and the surplus is lost with the wrapper; a bufio.Writer defers the write and
+// its error past the return of EncodeBebop) breaks the byte-exactness and the
+// error reporting that every emitted method relies on.
+func iohelpCtorDirect(c *core.Ctx, p *load.Prog, rule string) {
+	for _, ctor := range []struct{ fn, typ, field string }{{"NewErrorReader", "ErrorReader", "Reader"}, {"NewErrorWriter", "ErrorWriter", "Writer"}} {
+		f := ioFunc(c, p, ctor.fn)
+		if f == nil {
+			continue
+		}
+		var param types.Object
+		if ps := f.fd.Type.Params; ps != nil && len(ps.List) == 1 && len(ps.List[0].Names) == 1 {
+			param = f.info.ObjectOf(ps.List[0].Names[0])
+		}
+		ok, lits, why := param != nil, 0, ""
+		ast.Inspect(f.fd.Body, func(n ast.Node) bool {
+			switch x := n.(type) {
+			case *ast.AssignStmt:
+				for _, l := range x.Lhs {
+					if id, is := l.(*ast.Ident); is && param != nil && f.info.ObjectOf(id) == param && x.Tok == token.ASSIGN {
+						ok, why = false, "the stream parameter is reassigned: "+strings.Join(strings.Fields(srcOf(p, x)), " ")
+					}
+				}
+			case *ast.CompositeLit:
+				if wire.Canon(x.Type) != ctor.typ {
+					return true
+				}
+				lits++
+				found := false
+				for _, el := range x.Elts {
+					kv, is := el.(*ast.KeyValueExpr)
+					if !is || wire.Canon(kv.Key) != ctor.field {
+						continue
+					}
+					if id, is := ast.Unparen(kv.Value).(*ast.Ident); is && f.info.ObjectOf(id) == param {
+						found = true
+					} else {
+						why = "." + ctor.field + " is initialised with " + wire.Canon(kv.Value)
+					}
+				}
+				if !found {
+					ok = false
+				}
+			}
+			return true
+		})
+		c.Check(rule, ctor.fn+" wraps the caller's stream itself", f.pos(), ok && lits > 0,
+			"the wrapper must hold the caller's stream directly (no buffering or other reader/writer in between): "+why)
 	}
 }
 
